@@ -42,7 +42,10 @@ PROP = dict(
     rule=("histories on one world: 2-4 transactions, each calling 1-4 contracts (contracts may call the next one in the middle of their sequence), every contract "
           "running 6-30 storage instructions over two overlapping key blocks (K..K+7 and 2^256-4..2^256-1): all 13 opcodes, ranges 0-5 (rarely 100..2^64-1), "
           "empty / short / long values, rewrites, append (offset u64::MAX), slot-length limits 16/64/128/1 MiB, faulty pointers and registers at 0-1.2%, "
-          "default/unit/random gas schedules, small gas limits; plus vmtrace-generated scenarios (storage feature) run twice on the same world. "
+          "default/unit/random gas schedules, small gas limits; plus vmtrace-generated scenarios (storage feature) run twice on the same world; plus 20 directed "
+          "edge histories run on every check (absent slot with unwritable destination, bounds-vs-destination check order, ranges ending exactly at 2^256-1 and one "
+          "beyond, partial writes before TooManySlots, counts/lengths/offsets of 2^32, append / gap / limit 16 / limit 64, empty values, reserved result registers). "
+          "The first transaction of every history is also traced with vmtrace::trace and must agree step by step with the probing loop. "
           "Each storage instruction = one step (operands, memory oracle tables, outcome, result registers, $err, bytes written, backing-storage calls, gas) "
           "replayed by the L1 model threaded through the whole history; store and slot cache compared after every transaction. "
           "Oracles on the implementation: HashMap reference replay, cache coherence after every instruction, same results with the cache emptied before "
